@@ -24,7 +24,7 @@ XHasParam    == HasParam /\ call = NoCall
 XNext == XGetParam \/ XGetInt \/ XGetFloat \/ XGetBool \/ XGetUuid \/ XGetDatetime \/ XGetDate \/ XGetJson
          \/ XGetList \/ XGetListInt \/ XHasParam
 
-Emit == Made => PrintT(ToJson([present |-> present, vals |-> vals, call |-> call, last |-> last]))
+Emit == Made => PrintT(ToJson([present |-> present, zero |-> zero, vals |-> vals, call |-> call, last |-> last]))
 
 (* wrong-design switch for the vacuity run (MC_ParamGettersBad.cfg: Outcome <- FirstOccurrence): a getter
    that converts the FIRST occurrence must be caught by GetterNeverMisreports *)
